@@ -307,7 +307,7 @@ def run(ctx: Ctx):
     sel_none = sel_only = sel_with = None
     empty_forms = {ctext(x % {"r": p_restr}) for x in ("%(r)s is None or len(%(r)s) == 0", "not %(r)s", "%(r)s is None or not %(r)s",
                                                         "%(r)s is None or len(%(r)s) < 1", "len(%(r)s) == 0 or %(r)s is None")}
-    anyt = ctext("%s.any()" % mask_name)[0]
+    anyt = ctext("np.any(%s)" % mask_name)[0]       # canonical spelling of `mask.any()`
     for m, cs in cdisp:
         if not cs:
             continue
